@@ -779,6 +779,12 @@ func (obj *DenseReal32MatrixJointIterator) Ok() bool {
          !(obj.s2 == nil || obj.s2.GetFloat32() == float32(0))
 }
 func (obj *DenseReal32MatrixJointIterator) Next() {
+  // skip positions where all operands are zero; stop when all
+  // iterators are exhausted
+  for obj.next() && !obj.Ok() {
+  }
+}
+func (obj *DenseReal32MatrixJointIterator) next() bool {
   ok1 := obj.it1.Ok()
   ok2 := obj.it2.Ok()
   obj.s1 = nil
@@ -806,6 +812,7 @@ func (obj *DenseReal32MatrixJointIterator) Next() {
   } else {
     obj.s2 = ConstFloat32(0.0)
   }
+  return ok1 || ok2
 }
 func (obj *DenseReal32MatrixJointIterator) Get() (Scalar, ConstScalar) {
   if obj.s1 == nil {
